@@ -11,6 +11,10 @@ extern void sb_append(StringBuilder *sb, const char *str);
 void generate_math_utility_builtins(StringBuilder *sb) {
     sb_append(sb, "/* ========== Math and Utility Built-in Functions ========== */\n\n");
 
+    /* Integer division: a divisor of -1 never reaches the hardware divide (INT64_MIN / -1 traps) */
+    sb_append(sb, "static inline int64_t nl_idiv(int64_t a, int64_t b) { return b == -1 ? (int64_t)(0 - (uint64_t)a) : a / b; }\n");
+    sb_append(sb, "static inline int64_t nl_imod(int64_t a, int64_t b) { return b == -1 ? 0 : a % b; }\n\n");
+
     /* abs function - works with int and float via macro */
     sb_append(sb, "#define nl_abs(x) _Generic((x), \\\n");
     sb_append(sb, "    double: (double)((x) < 0.0 ? -(x) : (x)), \\\n");
